@@ -96,6 +96,7 @@ impl Prop for C10 {
                 cfg.position = t.chance(1, 3);
                 cfg.max_items = 6;
                 cfg.include_via_body = true;
+                cfg.file_no_final_newline = true;
                 let case = gen_case(ctx, t, &cfg)?;
                 let o = compare_with_model(ctx, "C10", case, st)?;
                 let ms = &o.model.stats;
